@@ -191,13 +191,15 @@ CUSTOM_LAYERS = [
 ]
 
 
-def _season_window(rng, wname, crop, n_seasons, start_mode):
+def _season_window(rng, wname, crop, n_seasons, start_mode, planting=None):
     """pick planting date and window inside a station's coverage"""
     lo, hi = STATIONS[wname]
     lo, hi = pd.Timestamp(lo), pd.Timestamp(hi)
     y0 = int(rng.integers(lo.year, hi.year - n_seasons - 1))
     pm = int(rng.integers(1, 13))
     pd_ = int(rng.integers(1, 29))
+    if planting is not None:
+        pm, pd_ = int(planting[:2]), int(planting[3:])
     planting = f"{pm:02d}/{pd_:02d}"
     pdate = pd.Timestamp(year=y0, month=pm, day=pd_)
     if pdate < lo:
@@ -308,9 +310,7 @@ def gen_scenario(rng, idx, strata=None):
     wname = st.get("station") or str(rng.choice(list(STATIONS.keys())))
     n_seasons = st.get("n_seasons") or int(rng.choice([1, 1, 2, 3]))
     start_mode = st.get("start_mode") or str(rng.choice(["at", "before", "after"]))
-    planting, start, end = _season_window(rng, wname, crop_name, n_seasons, start_mode)
-    if "planting" in st:
-        planting = st["planting"]
+    planting, start, end = _season_window(rng, wname, crop_name, n_seasons, start_mode, st.get("planting"))
     scen = {"id": idx, "start": start, "end": end, "weather": {"kind": "file", "name": wname}}
     if st.get("synth") or (strata is None and rng.random() < 0.3):
         lo = (pd.Timestamp(start) - pd.Timedelta(days=int(rng.integers(0, 40)))).strftime("%Y-%m-%d")
@@ -424,8 +424,9 @@ QUICK_STRATA = [
     dict(crop="Cotton", station="tunis_climate.txt", irr_method=4, soil_kind="custom", layers=CUSTOM_LAYERS[4], n_seasons=2,
          start_mode="at", off_season=False, iwc={"wc_type": "Pct", "method": "Layer", "depth_layer": [1, 2], "value": [30.0, 30.0]}),
     # season closed by the configured latest harvest date; deficit irrigation on a heavy soil
-    dict(crop="Cotton", station="tunis_climate.txt", irr_method=1, irr_over={"SMT": [20.0] * 4, "MaxIrr": 25.0, "AppEff": 100.0},
-         soil="Clay", soil_kind="builtin", n_seasons=2, start_mode="before", off_season=False),
+    dict(crop="Cotton", station="tunis_climate.txt", planting="04/15", irr_method=1, irr_over={"SMT": [20.0] * 4, "MaxIrr": 25.0, "AppEff": 100.0},
+         soil="Clay", soil_kind="builtin", dz=None, n_seasons=2, start_mode="before", off_season=False,
+         iwc={"wc_type": "Prop", "method": "Layer", "depth_layer": [1], "value": ["FC"]}),
     dict(crop="Wheat", station="tunis_climate.txt", irr_method=0, soil="Loam", soil_kind="builtin", harvest_early=True,
          n_seasons=3, start_mode="at", off_season=False),
     # the season is closed by the latest harvest date while the fallow days that follow are simulated and water is
